@@ -1155,6 +1155,8 @@ pub fn c13(ctx: &Ctx) -> (Report, Meta) {
             }
         } else {
             payloads.push(fill(0, l));
+            payloads.push(fill(2, l)); // message number 0
+            payloads.push(fill(1, l)); // message number 4095
             // a real supported number in the first 12 bits
             let n = nums[l % nums.len()];
             let mut p = fill(2, l);
@@ -1430,12 +1432,17 @@ pub fn c14(ctx: &Ctx) -> (Report, Meta) {
         let only_feat: Vec<_> = feats.difference(&observed).collect();
         rep.violation("C14", format!("set:{:?}:{:?}", only_obs, only_feat), format!("supported numbers observed-only {:?}, features-only {:?}", only_obs, only_feat), 0, json!({"kind":"supported_set"}));
     }
+    // the decode exploration (all supported numbers x bases x 0/1/2 field deviations) with the
+    // classification oracle: hostile but structurally valid payloads must still give the typed variant of
+    // their own number or Corrupt
+    let dec = crate::decode::run_decode_engine(ctx, "C14");
+    rep.merge(dec);
     rep.extra.insert("supported_numbers".into(), json!(feats.len()));
     rep.sample(json!({"n": 1005, "shapes": "2,3,8,200,1023-byte payloads of 00/FF/other + testdata payloads", "expect": "Msg1005 or Corrupt"}));
     rep.sample(json!({"n": 1018, "expect": "MsgNotSupported{1018}"}));
     let _ = ctx;
     let meta = Meta {
-        rule: "all 4096 message numbers x payload shapes {2,3,8,200,1023 bytes of 00/FF/patterns, testdata payloads}; payloads of 0 and 1 byte (all values) alone and embedded in a stream; supported set observed from decoder behaviour compared with the msgNNNN features parsed from Cargo.toml; typed results re-encoded and the number on the wire compared. states = message numbers; distinct_nontrivial = supported numbers for which a typed message was obtained".into(),
+        rule: "all 4096 message numbers x payload shapes {2,3,8,200,1023 bytes of 00/FF/patterns, testdata payloads}; payloads of 0 and 1 byte (all values) alone and embedded in a stream; supported set observed from decoder behaviour compared with the msgNNNN features parsed from Cargo.toml; typed results re-encoded and the number on the wire compared; plus the deviation-bounded decode exploration of C02 (every supported number x bases x field deviations) with the classification oracle. states = message numbers + distinct decode shapes; distinct_nontrivial = supported numbers for which a typed message was obtained".into(),
         exhaustive: true,
         bounds: json!({"n":"0..=4095"}),
         assumptions: vec![],
